@@ -100,6 +100,7 @@ class DiameterAssociation(object):
 
         self._recv_messages = queue.Queue()
         self._send_messages = queue.Queue()
+        self._recv_pending_stream = b""
 
         self.postprocess_recv_messages = queue.Queue() 
         self.postprocess_recv_messages_ready = threading.Event()
@@ -171,12 +172,19 @@ class DiameterAssociation(object):
             if self.transport is None:
                 break
 
-            data_stream = copy.copy(self.transport._recv_data_stream)
+            data_stream = self._recv_pending_stream + \
+                                copy.copy(self.transport._recv_data_stream)
             self.transport._recv_data_stream = b""
             self.transport._recv_data_available.clear()
 
             diameter_conn_logger.debug("Grabbing data stream from "\
                                        "Transport Layer to Diameter Layer.")
+
+            #: TCP delivers a byte stream: only the complete messages are 
+            #: parsed, the remaining bytes wait for the next segments.
+            complete = DiameterAssociation.get_complete_messages_length(data_stream)
+            self._recv_pending_stream = data_stream[complete:]
+            data_stream = data_stream[:complete]
 
             try:
                 msgs = DiameterMessage.load(data_stream)
@@ -192,6 +200,25 @@ class DiameterAssociation(object):
                                                f"{self.transport._recv_data_stream.hex()}")
 
             self.lock.release()
+
+
+    @staticmethod
+    def get_complete_messages_length(stream: bytes) -> int:
+        """Returns how many leading bytes of the stream are made of complete
+        Diameter Messages, as per the Message Length field of each one.
+        """
+        index = 0
+        while len(stream) - index >= 20:
+            length = int.from_bytes(stream[index+1:index+4], byteorder="big")
+            if length < 20:
+                #: Not a Diameter Message. Let the parser complain about it.
+                return len(stream)
+
+            if len(stream) - index < length:
+                break
+
+            index += length
+        return index
 
 
     def put_message_into_send_queue(self, msg: Type[DiameterMessage]) -> None:
